@@ -13,8 +13,8 @@ META = dict(
                "requested lengths and sum to the total; a piece accepted by the sub-curve checker is the stated sub-curve for "
                "every parameter. Length within 1 % of the true arc length is enclosure-checked per input, not proved.",
     level_note="Trusted: Coq kernel + vm_compute; hand-written models tied by differential testing; the facts 'inscribed polyline "
-               "<= arc length <= control polygon' are classical geometry, not formalised; elliptical arcs are covered for Reverse "
-               "only (SplitAt/Length on arcs: not covered).",
+               "<= arc length <= control polygon' are classical geometry, not formalised; elliptical arcs: Reverse is modelled; SplitAt/Length on one arc are "
+               "judged against the ellipse by orientation predicates and Go's own lengths (checked, not proved).",
     harness=["c09"],
 )
 
